@@ -186,49 +186,43 @@ theorem kw_length_ignored_witness :
 theorem readers_agree (k : Kind) (b : Bits) (len : Option Nat) (hl : ValidLen k b.length = true)
     (hlen : len = none ∨ len = some (itemsOf k b.length)) (r : Reader) :
     reader r k len b = .ok (decodeSpec k b) := by
-  sorry
+  exact readers_agree' k b len hl hlen r
 
 /-- The value does not depend on where the pattern sits in a stream; the position advances by exactly its length. -/
 theorem streamRead_at (k : Kind) (pre body post : Bits) (hl : ValidLen k body.length = true) :
     streamRead k (some (itemsOf k body.length)) (pre ++ body ++ post) pre.length
       = .ok (decodeSpec k body, pre.length + body.length) := by
-  sorry
+  exact streamRead_at' k pre body post hl
 
 /-! ### the two round trips -/
-
-/-- What reading back the encoding of a request must give: the value in canonical form
-    (digit strings tidied; a float rounded to the format). -/
-def valueOf (q : Req) (n : Nat) : RVal :=
-  match q with
-  | .int _ v => .int v
-  | .str k s => .str (k.canon s)
-  | .flt .floatbe p | .flt .floatle p => .flt (unpackFloat (fltFmt n) (packFloat (fltFmt n) p))
-  | .flt .bfloatbe p | .flt .bfloatle p => .flt (unpackFloat Ieee.f32 ((packFloat Ieee.f32 p).take 16 ++ List.replicate 16 false))
-  | .bool (.py b) => .bool b
-  | .bool (.int i) => .bool (decide (i = 1))
-  | .bool (.str s) => .bool (decide (s = "True".toList ∨ s = "1".toList))
-  | .bytes d => .bytes d
-  | .bits b => .bits b
-  | .pad => .none
 
 /-- value → bits → value: interpreting the canonical encoding of a valid request returns the value. -/
 theorem decode_encode (q : Req) (len : Option Nat) (hv : Valid q len = true) :
     getFn q.kind (encode q (resultLen q len)) = .ok (valueOf q (resultLen q len)) := by
-  sorry
+  exact decode_encode' q len hv
 
 /-- bits → value → bits: rebuilding from the value read from any pattern of a valid length reproduces the pattern
     (`reqOfValue` is `none` exactly for a NaN and for `pad`, which carry no value to rebuild from). -/
 theorem encode_decode (k : Kind) (b : Bits) (hl : ValidLen k b.length = true) (q : Req)
     (hq : reqOfValue k (decodeSpec k b) = some q) :
     Valid q (some (itemsOf k b.length)) = true ∧ encode q b.length = b := by
-  sorry
+  exact encode_decode' k b hl q hq
 
 /-- … and therefore through every creation route. -/
 theorem rebuild_all_routes (k : Kind) (b : Bits) (hl : ValidLen k b.length = true) (q : Req)
     (hq : reqOfValue k (decodeSpec k b) = some q) (r : Route)
     (ha : applicable r q (some (itemsOf k b.length)) = true) :
     route r q (some (itemsOf k b.length)) = .ok b := by
-  sorry
+  obtain ⟨hv, he⟩ := encode_decode' k b hl q hq
+  have hk : q.kind = k := by
+    cases k <;> simp only [decodeSpec] at hq <;>
+      first
+        | (simp only [reqOfValue, Option.some.injEq] at hq; subst hq; rfl)
+        | (split at hq <;> first | (cases hq; rfl) | (cases hq))
+        | (cases hq)
+  have hr : resultLen q (some (itemsOf k b.length)) = b.length := by
+    rw [resultLen_some, hk]; exact itemsOf_mul k _ hl
+  rw [routes_agree' q _ hv r ha, hr, he]
 
 /-! ### non-vacuity -/
 example : Valid (.int .intle (-2)) (some 24) = true := by decide
